@@ -160,6 +160,46 @@ func (s *Session) buildReplayer(run HarnessRun) *replayer {
 	return r
 }
 
+// runIsolated replays every case in its own process (concurrent harnesses leave
+// goroutines behind that must not leak into the next case).
+func (r *replayer) runIsolated(outDir, tag string, cases []replayCase) (map[string]replayResult, error) {
+	res := map[string]replayResult{}
+	if len(cases) == 0 {
+		return res, nil
+	}
+	if r.err != nil {
+		return nil, r.err
+	}
+	type out struct {
+		m   map[string]replayResult
+		err error
+	}
+	sem := make(chan struct{}, 8)
+	ch := make(chan out, len(cases))
+	for i, c := range cases {
+		sem <- struct{}{}
+		go func(i int, c replayCase) {
+			defer func() { <-sem }()
+			m, err := r.run(outDir, fmt.Sprintf("%s_%d", tag, i), []replayCase{c})
+			ch <- out{m, err}
+		}(i, c)
+	}
+	var firstErr error
+	for range cases {
+		o := <-ch
+		if o.err != nil && firstErr == nil {
+			firstErr = o.err
+		}
+		for k, v := range o.m {
+			res[k] = v
+		}
+	}
+	if len(res) == 0 && firstErr != nil {
+		return nil, firstErr
+	}
+	return res, nil
+}
+
 func (r *replayer) run(outDir, tag string, cases []replayCase) (map[string]replayResult, error) {
 	res := map[string]replayResult{}
 	if len(cases) == 0 {
@@ -182,7 +222,7 @@ func (r *replayer) run(outDir, tag string, cases []replayCase) (map[string]repla
 	}
 	w.Flush()
 	f.Close()
-	cmd := exec.Command(r.bin, "-test.run", "^TestZZReplay$", "-test.count=1", "-test.timeout=10m")
+	cmd := exec.Command(r.bin, "-test.run", "^TestZZReplay$", "-test.count=1", "-test.timeout=5m")
 	cmd.Dir = r.dir
 	cmd.Env = append(os.Environ(), "VERIF_CASES="+cf, "VERIF_RESULTS="+rf)
 	out, err := cmd.CombinedOutput()
@@ -203,6 +243,13 @@ func (r *replayer) run(outDir, tag string, cases []replayCase) (map[string]repla
 		}
 	}
 	return res, nil
+}
+
+func replayRun(spec *CheckSpec, r *replayer, outDir, tag string, cases []replayCase) (map[string]replayResult, error) {
+	if spec.Instrument {
+		return r.runIsolated(outDir, tag, cases)
+	}
+	return r.run(outDir, tag, cases)
 }
 
 func tail(s string, n int) string {
@@ -402,7 +449,11 @@ func runCheck(spec *CheckSpec, tier string, seed, workers int) int {
 		}
 		for wi, w := range r.Witnesses {
 			id := fmt.Sprintf("w-%s-%d-%d", r.Job.Harness, r.Job.Shape, wi)
-			witnessCases = append(witnessCases, replayCase{ID: id, Harness: r.Job.Harness, Shape: r.Job.Shape, Model: w.Model, Sched: w.Sched})
+			wc := replayCase{ID: id, Harness: r.Job.Harness, Shape: r.Job.Shape, Model: w.Model}
+			if spec.Instrument {
+				wc.Sched = w.Sched
+			}
+			witnessCases = append(witnessCases, wc)
 			witnessExpect[id] = w
 			witnessRun[id] = run
 			if len(samples) < 3 {
@@ -422,7 +473,11 @@ func runCheck(spec *CheckSpec, tier string, seed, workers int) int {
 			continue
 		}
 		id := fmt.Sprintf("cex-%d", i)
-		cexCases = append(cexCases, replayCase{ID: id, Harness: cv.V.Harness, Shape: cv.V.Shape, Model: cv.V.Model, Sched: cv.V.Sched})
+		cc := replayCase{ID: id, Harness: cv.V.Harness, Shape: cv.V.Shape, Model: cv.V.Model}
+		if spec.Instrument {
+			cc.Sched = cv.V.Sched
+		}
+		cexCases = append(cexCases, cc)
 		cexIdx[id] = cv
 	}
 	byRun := func(cases []replayCase, runOf func(c replayCase) HarnessRun) map[string][]replayCase {
@@ -444,7 +499,7 @@ func runCheck(spec *CheckSpec, tier string, seed, workers int) int {
 	}
 	var replayErrs []string
 	for k, cs := range byRun(cexCases, func(c replayCase) HarnessRun { return runOfHarness(c.Harness) }) {
-		res, err := replayers[k].run(sess.OutDir, "cex_"+strings.ReplaceAll(k, "/", "_"), cs)
+		res, err := replayRun(spec, replayers[k], sess.OutDir, "cex_"+strings.ReplaceAll(k, "/", "_"), cs)
 		if err != nil {
 			replayErrs = append(replayErrs, err.Error())
 			continue
@@ -474,7 +529,7 @@ func runCheck(spec *CheckSpec, tier string, seed, workers int) int {
 	validated, mismatched := 0, 0
 	var mismatchNotes []string
 	for k, cs := range byRun(witnessCases, func(c replayCase) HarnessRun { return witnessRun[c.ID] }) {
-		res, err := replayers[k].run(sess.OutDir, "wit_"+strings.ReplaceAll(k, "/", "_"), cs)
+		res, err := replayRun(spec, replayers[k], sess.OutDir, "wit_"+strings.ReplaceAll(k, "/", "_"), cs)
 		if err != nil {
 			replayErrs = append(replayErrs, err.Error())
 			continue
@@ -512,7 +567,7 @@ func runCheck(spec *CheckSpec, tier string, seed, workers int) int {
 		}
 	}
 	for k, cs := range byRun(canaryCases, func(c replayCase) HarnessRun { return runOfHarness(c.Harness) }) {
-		res, err := replayers[k].run(sess.OutDir, "canary_"+strings.ReplaceAll(k, "/", "_"), cs)
+		res, err := replayRun(spec, replayers[k], sess.OutDir, "canary_"+strings.ReplaceAll(k, "/", "_"), cs)
 		if err != nil {
 			replayErrs = append(replayErrs, err.Error())
 			continue
@@ -750,7 +805,7 @@ func cleanupOut(dir string) {
 	ents, _ := os.ReadDir(dir)
 	for _, e := range ents {
 		n := e.Name()
-		if strings.HasSuffix(n, ".test") || n == "verifhelper" || strings.HasPrefix(n, "overlay") || strings.HasPrefix(n, "wit_") || strings.HasPrefix(n, "canary_") {
+		if strings.HasSuffix(n, ".test") || n == "verifhelper" || strings.HasPrefix(n, "overlay") || strings.HasPrefix(n, "wit_") || strings.HasPrefix(n, "canary_") || (strings.HasPrefix(n, "cex_") && strings.HasSuffix(n, ".jsonl")) {
 			os.RemoveAll(filepath.Join(dir, n))
 		}
 	}
